@@ -6,6 +6,7 @@ import (
 	"fmt"
 	"sort"
 	"strings"
+	"time"
 
 	abci "github.com/tendermint/tendermint/abci/types"
 )
@@ -193,6 +194,11 @@ func (ip *interposer) at(call CallKind, height int64, txIdx int, after bool) {
 
 // guard runs one call into the real application, detecting panics that escape handlePanic and the
 // handlePanic -> Close() path.
+// StallLimit > 0 (C18 only): every ABCI call runs under a real-time limit several thousand times its normal
+// duration; a call that does not return is a halted node. The only place where the simulator reads a real
+// clock; a stall verdict is confirmed by a replay in a fresh process before it is reported.
+var StallLimit time.Duration
+
 func (ip *interposer) guard(what string, f func()) {
 	r := ip.r
 	r.Activate()
@@ -210,7 +216,37 @@ func (ip *interposer) guard(what string, f func()) {
 			}
 		}
 	}()
-	f()
+	if StallLimit > 0 {
+		if r.Stalled {
+			return // an earlier call never returned: the application is not asked again
+		}
+		done := make(chan interface{}, 1)
+		go func() {
+			defer func() { done <- recover() }()
+			f()
+		}()
+		tm := time.NewTimer(StallLimit)
+		select {
+		case rec := <-done:
+			tm.Stop()
+			if rec != nil {
+				panic(rec)
+			}
+		case <-tm.C:
+			// the call is still running (blocked on a lock, looping): the node has halted. Its goroutine is
+			// left behind; the run ends here.
+			r.Stalled = true
+			if r.Dead == "" {
+				r.Dead = fmt.Sprintf("call stalled: %s did not return within %v", what, StallLimit)
+			}
+			if r.C != nil && r.C.OnAppDeath != nil {
+				r.C.OnAppDeath(r, r.Dead)
+			}
+			return
+		}
+	} else {
+		f()
+	}
 	if r.Dead == "" && !r.App.VerifAlive() {
 		r.Dead = "application closed itself during " + what
 		if r.C != nil && r.C.OnAppDeath != nil {
